@@ -66,6 +66,9 @@ func runC19(r *Run) {
 	if want("http.stale") {
 		c19HttpStale(r)
 	}
+	if want("http.table") {
+		c19HttpTable(r)
+	}
 }
 
 // ---------------------------------------------------------------------------
